@@ -154,6 +154,8 @@ def schemas(draw, cfg=None, depth=None, _counter=None):
                 s["items"] = draw(sub())
             elif kw == "tuple":
                 s["items"] = draw(st.lists(sub(), min_size=1, max_size=3))
+                if "additionalItems" not in s and draw(st.booleans()):
+                    s["additionalItems"] = draw(st.one_of(st.just(False), st.just(False), st.booleans(), sub()))
             elif kw == "additionalItems":
                 s[kw] = draw(st.one_of(st.booleans(), sub()))
             elif kw in ("minItems", "maxItems"):
@@ -240,7 +242,8 @@ def schemas(draw, cfg=None, depth=None, _counter=None):
             if cfg.falsy_composition_default or not (composed and not d):
                 s["default"] = d
         if cfg.descriptions and draw(st.booleans()):
-            s["description"] = draw(st.sampled_from(["d", "a description", "Line one\nline two"]))
+            s["description"] = draw(st.sampled_from(["d", "a description", "Line one\nline two", "cr\rlf", "crlf\r\nline", "tab\there",
+                                                      'quote " and \\ backslash', ""]))
     # Parser precondition: anything that may be parsed as an object class needs a title.
     t = s.get("type")
     if t == "object" or (isinstance(t, list) and "object" in t):
